@@ -9,6 +9,8 @@
 
 #include "libphysica/Linear_Algebra.hpp"
 #include "libphysica/Natural_Units.hpp"
+#include "libphysica/Numerics.hpp"
+#include "libphysica/Statistics.hpp"
 #include "libphysica/Utilities.hpp"
 
 namespace libphysica
@@ -321,6 +323,132 @@ std::string handle(const std::string& op, Args& a)
 		// the constants are read in the four separately compiled builds (props/c20.py); the
 		// sanitizer build contributes the few the file formats depend on
 		return "ok -";
+	}
+	// ---- coverage extension: Time_Display, Reduced_Mass, Formatted_String, Check_For_Warning, File_Exists,
+	//      operator<< (Vector, Matrix, DataPoint), Save_Function (1-D, 2-D), Interpolation_2D() ----
+	if(op == "c20.timedisp")
+	{
+		double x = a.dbl();
+		a.end();
+		return run_forked([&](Out& o) { o << enhex(Time_Display(x)); });
+	}
+	if(op == "c20.redmass")
+	{
+		double m1 = a.dbl(), m2 = a.dbl();
+		a.end();
+		return run([&](Out& o) { o << Reduced_Mass(m1, m2); });
+	}
+	if(op == "c20.fmtstr")
+	{
+		std::string str = unhex(a.tok()), col = unhex(a.tok());
+		bool bold = a.u64() != 0, ul = a.u64() != 0;
+		std::string bg = unhex(a.tok());
+		a.end();
+		std::string diag;
+		std::string r = run_forked([&](Out& o) { o << enhex(Formatted_String(str, col, bold, ul, bg)); }, &diag);
+		if(r.compare(0, 2, "ok") != 0)
+			return r;
+		return r + (diag.empty() ? " 0 " : " 1 ") + enhex(diag);
+	}
+	if(op == "c20.warn")
+	{
+		bool cond		= a.u64() != 0;
+		std::string fn = unhex(a.tok()), msg = unhex(a.tok());
+		a.end();
+		std::string diag;
+		// the body returns normally iff Check_For_Warning returns
+		std::string r = run_forked([&](Out& o) { Check_For_Warning(cond, fn, msg); o << "returned"; }, &diag);
+		if(r != "ok returned")
+			return r;
+		return "ok " + enhex(diag);
+	}
+	if(op == "c20.fexists")
+	{
+		std::string k = a.tok();
+		a.end();
+		std::string p;
+		Cleanup c{""};
+		if(k == "file")
+		{
+			p = new_path();
+			spit(p, "x\n");
+			c.p = p;
+		}
+		else if(k == "dir")
+			p = scratch_dir();
+		else if(k == "missing")
+			p = new_path() + ".absent";
+		else if(k == "empty")
+			p = "";
+		else
+			throw BadArgs("kind");
+		return run([&](Out& o) { o << (int) File_Exists(p); });
+	}
+	if(op == "c20.vecout")
+	{
+		auto x = a.dbls();
+		a.end();
+		return run([&](Out& o) {
+			std::ostringstream s;
+			s << Vector(x);
+			o << enhex(s.str());
+		});
+	}
+	if(op == "c20.matout")
+	{
+		auto t = table(a);
+		a.end();
+		return run_forked([&](Out& o) {
+			std::ostringstream s;
+			s << Matrix(t);
+			o << enhex(s.str());
+		});
+	}
+	if(op == "c20.dpout")
+	{
+		double v = a.dbl(), w = a.dbl();
+		a.end();
+		return run([&](Out& o) {
+			std::ostringstream s;
+			s << DataPoint(v, w);
+			o << enhex(s.str());
+		});
+	}
+	if(op == "c20.save1")
+	{
+		auto xs = a.dbls(), ys = a.dbls();
+		unsigned n = a.u64();
+		a.end();
+		std::string p = new_path();
+		Cleanup c{p};
+		return run_forked([&](Out& o) {
+			Interpolation f(xs, ys);
+			f.Save_Function(p, n);
+			o << enhex(slurp(p));
+		});
+	}
+	if(op == "c20.save2" || op == "c20.save2d0")
+	{
+		std::vector<double> xs, ys;
+		std::vector<std::vector<double>> t;
+		if(op == "c20.save2")
+		{
+			xs = a.dbls();
+			ys = a.dbls();
+			t  = table(a);
+		}
+		unsigned xp = a.u64(), yp = a.u64();
+		a.end();
+		std::string p = new_path();
+		Cleanup c{p};
+		return run_forked([&](Out& o) {
+			Interpolation_2D f = (op == "c20.save2") ? Interpolation_2D(xs, ys, t) : Interpolation_2D();
+			f.Save_Function(p, xp, yp);
+			// the default object must also evaluate to zero at the corners and the centre of its domain
+			o << enhex(slurp(p));
+			if(op == "c20.save2d0")
+				o << f(-1.0, -1.0) << f(1.0, 1.0) << f(0.0, 0.0) << f(0.5, -0.25);
+		});
 	}
 	throw BadOp();
 }
